@@ -71,8 +71,35 @@ impl SendWindow {
         self.sent_at = Instant::MAX;
     }
 
+    /// Check that the ACK seq num in the incoming packet (if any) acknowledges a segment
+    /// that we have actually sent and that is still unacknowledged (or re-acknowledges
+    /// the one acknowledged last). As per the Matter Core spec, an acknowledgement of
+    /// anything else is a protocol violation.
+    fn check_incoming(&self, hdr: &BtpHdr) -> Result<(), Error> {
+        let Some(ack_seq_num) = hdr.get_ack() else {
+            return Ok(());
+        };
+
+        // The number of segments sent after the acknowledged one (modulo 256)...
+        let unacknowledged = (Wrapping(self.last_sent_seq_num) - Wrapping(ack_seq_num)).0;
+        // ... cannot be larger than the number of segments currently in flight
+        let in_flight = self.window_size - self.level;
+
+        if unacknowledged > in_flight {
+            warn!(
+                "RX data integrity failure: ACK for seq num {} which is not in flight; last sent={}, in flight={}",
+                ack_seq_num, self.last_sent_seq_num, in_flight
+            );
+            return Err(ErrorCode::InvalidData.into());
+        }
+
+        Ok(())
+    }
+
     /// Update the sending window level when a new BTP segment had arrived,
     /// based on the ACK seq num in the incoming packet (if any).
+    ///
+    /// The ACK must have been validated with `check_incoming` first.
     fn accept_incoming(&mut self, hdr: &BtpHdr) {
         let Some(ack_seq_num) = hdr.get_ack() else {
             return;
@@ -203,6 +230,11 @@ impl RecvWindow {
     fn accept_incoming(&mut self, hdr: &BtpHdr, payload: &[u8], mtu: u16) -> Result<(), Error> {
         // Check received packet integrity, as per the Matter Core spec
         self.check_data_integrity(hdr, payload, mtu)?;
+
+        if self.level == 0 {
+            warn!("RX data integrity failure: the other party is overrunning our recv window");
+            Err(ErrorCode::InvalidData)?;
+        }
 
         if let Some(msg_len) = hdr.get_msg_len() {
             if msg_len <= mtu && !hdr.is_final() {
@@ -670,6 +702,7 @@ impl Session {
             payload.len()
         );
 
+        self.send_window.check_incoming(&hdr)?;
         self.recv_window.accept_incoming(&hdr, payload, self.mtu)?;
         self.send_window.accept_incoming(&hdr);
 
